@@ -245,7 +245,7 @@ class Gen:
         files, dirs = self.known.get(oid, ([], []))
         if files and self.rng.random() < (0.9 if self.hostile else 0.75):
             pool = files * 3 + dirs * 2
-            if self.rng.random() < 0.3:
+            if self.rng.random() < 0.3 and not any(c in "".join(files) for c in "*?[]{}\\"):
                 f = self.rng.choice(files)
                 pool = [f.rsplit("/", 1)[0] + "/*" if "/" in f else "*", f[:-1] + "?", f.split("/")[0] + "*"]
             return pool
